@@ -48,6 +48,7 @@ func (u *Unit) script(o *Oblig, withModel []*Term) string {
 	tb := u.m.tb
 	roots := []*Term{}
 	roots = append(roots, u.m.axioms...)
+	roots = append(roots, u.m.ImplementsAxioms()...)
 	// literals of the obligation's path condition: assumptions guarded by the
 	// negation of one of them are vacuous here and left out (always sound)
 	pathLits := map[int]bool{}
